@@ -197,6 +197,14 @@ var modules = []Module{
 		},
 	},
 	{
+		// the two swap tests of the selection sort that ranks candidates (C10)
+		File: "Rank.lean", NS: "LemoGen.Rank",
+		Exprs: []ExprSpec{
+			{Pkg: "store", Recv: "VoteTop", Func: "ranking", Kind: "ifcond", LHS: "val <", Nth: 0, Lean: "swapOnVotesCond"},
+			{Pkg: "store", Recv: "VoteTop", Func: "ranking", Kind: "ifcond", LHS: "(val ==", Nth: 0, Lean: "swapOnTieCond"},
+		},
+	},
+	{
 		File: "NetCache.lean", NS: "LemoGen.NetCache",
 		Exprs: []ExprSpec{
 			{Pkg: "network", Recv: "ConfirmCache", Func: "Push", Kind: "ifcond", LHS: "len(c.cache)", Nth: 0, Lean: "confirmCacheFlushCond"},
@@ -529,6 +537,9 @@ func (t *tr) expr(e ast.Expr) (string, lty) {
 		callee := calleeName(x.Fun)
 		if callee == "len" {
 			return "(Int.ofNat " + t.addParam("len_"+exprText(t.pkg.Fset, x.Args[0]), lty{k: kNat, w: 64}) + ")", lty{k: kInt, w: 64}
+		}
+		if callee == "Compare" && len(x.Args) == 2 { // bytes.Compare(a, b): an opaque signed result (-1, 0, +1)
+			return t.addParam("bytesCompare", lty{k: kInt, w: 64}), lty{k: kInt, w: 64}
 		}
 		if p, ok := t.spec.Ext[callee]; ok {
 			return t.addParam(p, ty), ty
